@@ -14,7 +14,10 @@ use nom::{
 };
 use std::borrow::Cow;
 
-use crate::{parser::core::*, types::*};
+use crate::{
+    parser::{core::*, rfc3501::mailbox},
+    types::*,
+};
 
 fn is_entry_component_char(c: u8) -> bool {
     c < 0x80 && c > 0x19 && c != b'*' && c != b'%' && c != b'/'
@@ -155,7 +158,7 @@ fn entry_list(i: &[u8]) -> IResult<&[u8], Vec<Cow<str>>> {
 }
 
 fn metadata_common(i: &[u8]) -> IResult<&[u8], &str> {
-    let (i, (_, mbox, _)) = tuple((tag_no_case("METADATA "), quoted_utf8, tag(" ")))(i)?;
+    let (i, (_, mbox, _)) = tuple((tag_no_case("METADATA "), mailbox, tag(" ")))(i)?;
     Ok((i, mbox))
 }
 
